@@ -11,6 +11,8 @@ mod v_iface_frag {
     use crate::verif_common::*;
 
     type Key = u16;
+    /// reassembly buffer size of the build configuration (256 in KI4, 64 in KI4r)
+    const B: usize = crate::config::REASSEMBLY_BUFFER_SIZE;
 
     /// the fragment branch of `process_ipv4` (src/iface/interface/ipv4.rs): `None` = nothing delivered
     fn offer<'a>(
@@ -44,11 +46,171 @@ mod v_iface_frag {
             + ((m & 8 != 0) && (m & 4 == 0)) as usize
     }
 
+    // ------------------------------------------------------------------ one fragment from an arbitrary state (1-induction)
+    // INV (per reassembly slot, ghost datagram g[0..t)): every byte the assembler records as present equals the
+    // datagram's byte there; recorded ranges lie inside [0,t); total_size is None or Some(t).
+    // Base: `PacketAssembler::new()` / `reset()` record nothing (ipv4_reasm_set_slots asserts new slots are clean).
+    // Step (here): any fragment of the same datagram, at any offset, in any order, duplicated or overlapping,
+    // preserves INV; `assemble()` hands out bytes only when every byte of [0,t) is recorded, and then exactly g[0..t).
+    // The assembler state is built by API prefix (<= 4 disjoint ranges appended in order).
+    macro_rules! prefix_range {
+        ($pa:ident, $n:ident, $end:ident, $i:expr) => {
+            if $n > $i {
+                let h = any_le(B);
+                let d = any_le(B);
+                kani::assume(d >= 1 && ($i == 0 || h >= 1) && $end + h + d <= B);
+                $pa.assembler.add($end + h, d).unwrap();
+                $end += h + d;
+            }
+        };
+    }
+
+    fn reasm_step<const LEN: usize>() {
+        let mut pa = PacketAssembler::<Key>::new();
+        pa.key = Some(kani::any());
+        let g: [u8; B] = kani::any();
+        let t = any_le(B);
+        kani::assume(t >= 1);
+        let n = any_le(if ASSEMBLER_MAX_SEGMENT_COUNT < 4 { ASSEMBLER_MAX_SEGMENT_COUNT } else { 4 });
+        let mut end = 0usize;
+        prefix_range!(pa, n, end, 0);
+        prefix_range!(pa, n, end, 1);
+        prefix_range!(pa, n, end, 2);
+        prefix_range!(pa, n, end, 3);
+        kani::assume(end <= t);
+        pa.buffer = kani::any();
+        pa.total_size = if kani::any() { Some(t) } else { None };
+        let x = any_lt(B);
+        let pre_x = pa.assembler.verif_present(x);
+        kani::assume(!pre_x || pa.buffer[x] == g[x]);
+        let full = n == ASSEMBLER_MAX_SEGMENT_COUNT;
+        // the fragment: 8-aligned offset, LEN bytes of the datagram, MF clear iff it ends the datagram
+        let off = any_lt(B / 8) * 8;
+        kani::assume(off + LEN <= t);
+        let more = off + LEN < t;
+        if LEN % 8 != 0 {
+            kani::assume(!more);
+        }
+        crate::vdump!("t={} n={} end={} total_size={:?} x={} off={} more={} asm={}", t, n, end, pa.total_size, x, off, more, pa.assembler);
+        // process_ipv4's sequence
+        if !more {
+            assert!(pa.set_total_size(off + LEN).is_ok(), "prop:c12_reasm_consistent_total_size_accepted");
+        }
+        assert!(pa.add(&g[off..][..LEN], off).is_ok(), "prop:c12_reasm_fragment_inside_buffer_accepted");
+        let post = pa.assembler.clone();
+        let post_x = post.verif_present(x);
+        let y = off + any_lt(LEN);
+        assert!(!pre_x || post_x, "prop:c12_reasm_recorded_bytes_never_forgotten");
+        assert!(pa.buffer[y] == g[y], "prop:c12_reasm_fragment_stored_at_its_offset");
+        if !full {
+            assert!(post.verif_present(y), "prop:c12_reasm_fragment_recorded_unless_assembler_full");
+        }
+        assert!(!post_x || pa.buffer[x] == g[x], "prop:c12_reasm_recorded_bytes_equal_datagram");
+        assert!(post.verif_inv() && post.verif_total() <= t, "inv:reasm_ranges_canonical_and_inside_datagram");
+        let known = pa.total_size;
+        assert!(known.is_none() || known == Some(t), "inv:reasm_total_size_is_datagram_length");
+        let mut delivered = false;
+        match pa.assemble() {
+            Some(p) => {
+                delivered = true;
+                assert!(known == Some(t) && p.len() == t, "prop:c12_reasm_delivered_length_exact");
+                if x < t {
+                    assert!(post_x, "prop:c12_reasm_delivers_only_when_every_byte_present");
+                    assert!(p[x] == g[x], "prop:c12_reasm_delivered_bytes_equal_datagram");
+                }
+            }
+            None => {}
+        }
+        if delivered {
+            assert!(pa.key.is_none() && pa.total_size.is_none() && pa.assembler.is_empty(), "prop:c12_reasm_slot_released_after_delivery");
+        }
+        kani::cover!(delivered && n >= 1 && t > 32, "datagram completed by this fragment");
+        kani::cover!(!delivered && n >= 2 && pre_x && x >= off && x < off + LEN, "overlapping duplicate of recorded bytes, still incomplete");
+        kani::cover!(!delivered && n >= 1 && !post.verif_present(0), "fragment arrived while the first byte is still missing");
+    }
+
+    // @harness props=C12 cfg=KI4r tcfg=KI4 tier=q to=900 mem=8 unwind=12 opts=nomem covers=3 funcs=PacketAssembler::set_total_size;PacketAssembler::add;PacketAssembler::assemble;PacketAssembler::is_complete;PacketAssembler::reset;Assembler::add;Assembler::peek_front bounds=1-induction_step:_datagram_of_any_length_<=_reassembly_buffer_(64_quick,_256_thorough);_assembler_in_any_state_of_<=_4_recorded_ranges;_fragment_of_8_bytes_at_any_8-aligned_offset
+    #[kani::proof]
+    pub(crate) fn ipv4_reasm_step_8() {
+        reasm_step::<8>();
+    }
+
+    // @harness props=C12 cfg=KI4r tcfg=KI4 tier=q to=900 mem=8 unwind=12 opts=nomem covers=3 funcs=PacketAssembler::set_total_size;PacketAssembler::add;PacketAssembler::assemble;PacketAssembler::is_complete;PacketAssembler::reset;Assembler::add;Assembler::peek_front bounds=1-induction_step:_datagram_of_any_length_<=_reassembly_buffer_(64_quick,_256_thorough);_assembler_in_any_state_of_<=_4_recorded_ranges;_fragment_of_24_bytes_at_any_8-aligned_offset
+    #[kani::proof]
+    pub(crate) fn ipv4_reasm_step_24() {
+        reasm_step::<24>();
+    }
+
+    // @harness props=C12 cfg=KI4r tcfg=KI4 tier=q to=900 mem=8 unwind=12 opts=nomem covers=3 funcs=PacketAssembler::set_total_size;PacketAssembler::add;PacketAssembler::assemble;PacketAssembler::is_complete;PacketAssembler::reset;Assembler::add;Assembler::peek_front bounds=1-induction_step:_datagram_of_any_length_<=_reassembly_buffer_(64_quick,_256_thorough);_assembler_in_any_state_of_<=_4_recorded_ranges;_last_fragment_of_3_bytes_at_any_8-aligned_offset
+    #[kani::proof]
+    pub(crate) fn ipv4_reasm_step_3() {
+        reasm_step::<3>();
+    }
+
+    // Liveness: the datagram g[0..t) lacks nothing but (part of) this fragment -- [0,a) and [b,t) are recorded,
+    // off <= a <= b <= off+LEN, two ranges are trackable -- then this fragment delivers it.
+    fn reasm_completes<const LEN: usize>() {
+        let mut pa = PacketAssembler::<Key>::new();
+        pa.key = Some(kani::any());
+        let g: [u8; B] = kani::any();
+        let t = any_le(B);
+        kani::assume(t >= 1);
+        let a = any_le(B);
+        let b = any_le(B);
+        kani::assume(a <= b && b <= t);
+        if ASSEMBLER_MAX_SEGMENT_COUNT < 2 {
+            kani::assume(a == 0 || b == t);
+        }
+        if a > 0 {
+            pa.assembler.add(0, a).unwrap();
+        }
+        if b < t {
+            pa.assembler.add(b, t - b).unwrap();
+        }
+        pa.buffer = kani::any();
+        let x = any_lt(B);
+        kani::assume(!pa.assembler.verif_present(x) || pa.buffer[x] == g[x]);
+        let off = any_lt(B / 8) * 8;
+        kani::assume(off + LEN <= t && off <= a && b <= off + LEN);
+        let more = off + LEN < t;
+        if LEN % 8 != 0 {
+            kani::assume(!more);
+        }
+        // if this is not the last fragment, the last one came earlier and told the length
+        pa.total_size = if more || kani::any() { Some(t) } else { None };
+        crate::vdump!("t={} a={} b={} off={} more={} total_size={:?}", t, a, b, off, more, pa.total_size);
+        if !more {
+            assert!(pa.set_total_size(off + LEN).is_ok(), "prop:c12_reasm_consistent_total_size_accepted");
+        }
+        assert!(pa.add(&g[off..][..LEN], off).is_ok(), "prop:c12_reasm_fragment_inside_buffer_accepted");
+        let r = pa.assemble();
+        assert!(r.is_some(), "prop:c12_reasm_delivers_when_gaps_trackable");
+        let p = r.unwrap();
+        assert!(p.len() == t, "prop:c12_reasm_delivered_length_exact");
+        if x < t {
+            assert!(p[x] == g[x], "prop:c12_reasm_delivered_bytes_equal_datagram");
+        }
+        kani::cover!(a > 0 && b < t && a < b && more, "middle fragment arrived last");
+        kani::cover!(a == 0 && b < t, "first fragment arrived last");
+    }
+
+    // @harness props=C12 cfg=KI4 tier=q to=900 mem=8 unwind=12 opts=nomem covers=2 funcs=PacketAssembler::set_total_size;PacketAssembler::add;PacketAssembler::assemble;PacketAssembler::is_complete;Assembler::add bounds=datagram_of_any_length_<=_256_missing_only_bytes_inside_the_arriving_8-byte_fragment_(any_8-aligned_offset)
+    #[kani::proof]
+    pub(crate) fn ipv4_reasm_completes_8() {
+        reasm_completes::<8>();
+    }
+
+    // @harness props=C12 cfg=KI4 tier=q to=900 mem=8 unwind=12 opts=nomem covers=2 funcs=PacketAssembler::set_total_size;PacketAssembler::add;PacketAssembler::assemble;PacketAssembler::is_complete;Assembler::add bounds=datagram_of_any_length_<=_256_missing_only_bytes_inside_the_arriving_24-byte_fragment_(any_8-aligned_offset)
+    #[kani::proof]
+    pub(crate) fn ipv4_reasm_completes_24() {
+        reasm_completes::<24>();
+    }
+
     // ------------------------------------------------------------------ any order, duplicates, consistent overlap
     // Ghost datagram of T bytes (24 < T <= 32): fragments A=[0,8) B=[8,16) C=[16,24) D=[24,T) (last, MF clear) and,
     // if WITH_E, the consistent overlapping retransmission E=[8,24).  5 symbolic picks.
     // (Copies have concrete lengths: one `offer` call site per fragment length.)
-    fn any_order<const T: usize, const WITH_E: bool>() {
+    fn any_order<const T: usize, const WITH_E: bool, const STEPS: usize>() {
         let g: [u8; 32] = kani::any();
         let key: Key = kani::any();
         let exp = Instant::from_millis(60_000);
@@ -103,7 +265,9 @@ mod v_iface_frag {
         step!();
         step!();
         step!();
-        step!();
+        if STEPS >= 5 {
+            step!();
+        }
         kani::cover!(delivered == 1 && ooo, "datagram delivered after out-of-order arrival");
         kani::cover!(delivered == 1 && late_total, "last fragment arrived before an earlier one");
         kani::cover!(delivered == 0 && mask == 13, "one block missing: nothing delivered");
@@ -112,28 +276,28 @@ mod v_iface_frag {
         }
     }
 
-    // @harness props=C12 cfg=KI4 tier=q to=900 mem=8 unwind=12 opts=nomem covers=3 funcs=PacketAssemblerSet::get;PacketAssembler::set_total_size;PacketAssembler::add;PacketAssembler::assemble;PacketAssembler::is_complete;Assembler::add bounds=datagram_of_32_bytes_in_4_fragments_of_8;_5_symbolic_picks_(every_order_and_duplication);_symbolic_bytes_and_key;_no_expiry
+    // @harness props=C12 cfg=KI4r tier=q to=900 mem=8 unwind=12 opts=nomem covers=3 funcs=PacketAssemblerSet::get;PacketAssembler::set_total_size;PacketAssembler::add;PacketAssembler::assemble;PacketAssembler::is_complete;Assembler::add bounds=64-byte_reassembly_buffers_(KI4r);_datagram_of_32_bytes_in_4_fragments_of_8;_5_symbolic_picks_(every_order_and_duplication);_symbolic_bytes_and_key;_no_expiry
     #[kani::proof]
     pub(crate) fn ipv4_reasm_any_order_32() {
-        any_order::<32, false>();
+        any_order::<32, false, 5>();
     }
 
-    // @harness props=C12 cfg=KI4 tier=q to=900 mem=8 unwind=12 opts=nomem covers=3 funcs=PacketAssemblerSet::get;PacketAssembler::set_total_size;PacketAssembler::add;PacketAssembler::assemble;PacketAssembler::is_complete;Assembler::add bounds=datagram_of_25_bytes_(last_fragment_1_byte)_in_4_fragments;_5_symbolic_picks;_symbolic_bytes_and_key;_no_expiry
+    // @harness props=C12 cfg=KI4r tier=q to=900 mem=8 unwind=12 opts=nomem covers=3 funcs=PacketAssemblerSet::get;PacketAssembler::set_total_size;PacketAssembler::add;PacketAssembler::assemble;PacketAssembler::is_complete;Assembler::add bounds=64-byte_reassembly_buffers_(KI4r);_datagram_of_25_bytes_(last_fragment_1_byte)_in_4_fragments;_5_symbolic_picks;_symbolic_bytes_and_key;_no_expiry
     #[kani::proof]
     pub(crate) fn ipv4_reasm_any_order_25() {
-        any_order::<25, false>();
+        any_order::<25, false, 5>();
     }
 
-    // @harness props=C12 cfg=KI4 tier=q to=900 mem=8 unwind=12 opts=nomem covers=4 funcs=PacketAssemblerSet::get;PacketAssembler::set_total_size;PacketAssembler::add;PacketAssembler::assemble;PacketAssembler::is_complete;Assembler::add bounds=datagram_of_32_bytes_in_4_fragments_of_8_plus_one_overlapping_16-byte_retransmission_[8,24);_5_symbolic_picks;_symbolic_bytes_and_key;_no_expiry
+    // @harness props=C12 cfg=KI4r tier=q to=900 mem=8 unwind=12 opts=nomem covers=4 funcs=PacketAssemblerSet::get;PacketAssembler::set_total_size;PacketAssembler::add;PacketAssembler::assemble;PacketAssembler::is_complete;Assembler::add bounds=64-byte_reassembly_buffers_(KI4r);_datagram_of_32_bytes_in_4_fragments_of_8_plus_one_overlapping_16-byte_retransmission_[8,24);_5_symbolic_picks;_symbolic_bytes_and_key;_no_expiry
     #[kani::proof]
     pub(crate) fn ipv4_reasm_overlap_32() {
-        any_order::<32, true>();
+        any_order::<32, true, 5>();
     }
 
     // ------------------------------------------------------------------ two datagrams interleaved
     // GA (key ka) and GB (key kb != ka), 16 bytes each in two fragments; 5 symbolic picks among the four
     // fragments: each datagram comes out with its own bytes only.
-    // @harness props=C12 cfg=KI4 tier=q to=900 mem=8 unwind=12 opts=nomem covers=2 funcs=PacketAssemblerSet::get;PacketAssembler::set_total_size;PacketAssembler::add;PacketAssembler::assemble bounds=two_datagrams_of_16_bytes_in_2_fragments_each;_distinct_symbolic_keys;_5_symbolic_picks;_2_reassembly_slots
+    // @harness props=C12 cfg=KI4r tier=q to=900 mem=8 unwind=12 opts=nomem covers=2 funcs=PacketAssemblerSet::get;PacketAssembler::set_total_size;PacketAssembler::add;PacketAssembler::assemble bounds=64-byte_reassembly_buffers_(KI4r);_two_datagrams_of_16_bytes_in_2_fragments_each;_distinct_symbolic_keys;_5_symbolic_picks;_2_reassembly_slots
     #[kani::proof]
     pub(crate) fn ipv4_reasm_two_datagrams() {
         let ga: [u8; 16] = kani::any();
